@@ -154,7 +154,7 @@ class ScriptedModel:
     algorithm classes can be pushed through region configurations no GP would produce (identical, touching, nested,
     re-growing regions).  predict() returns mean = centre and covariance = diag(half-width^2) (or the scripted Sigma)."""
 
-    def __init__(self, points, m, kind, G, seed, nidx_col=False, wander=False, iso=False):
+    def __init__(self, points, m, kind, G, seed, nidx_col=False, wander=False, iso=False, dup=False):
         self.points = np.asarray(points, dtype=float)
         self.m, self.kind, self.G = m, kind, G
         self.rs = np.random.RandomState(seed)
@@ -169,6 +169,13 @@ class ScriptedModel:
         self.input_dim = self.points.shape[1]
         self.output_dim = m
         self.added = []
+        # dup: some designs are exact twins of others (same truth, same posterior in every round): ties and mutual relations
+        self.clones = {}
+        if dup and n >= 4:
+            ids = [int(i) for i in np.random.RandomState(seed + 4242).permutation(n)]
+            for a in range(max(1, n // 4)):
+                self.clones[ids[2 * a + 1]] = ids[2 * a]
+                self.truth[ids[2 * a + 1]] = self.truth[ids[2 * a]]
         self.advance()
 
     def advance(self):
@@ -193,6 +200,8 @@ class ScriptedModel:
                 S = np.eye(self.m)
                 S[0, 0], S[1, 1], S[0, 1], S[1, 0] = a, d, b, b
                 self.sig[i] = S
+        for dst, src in self.clones.items():
+            self.lo[dst], self.hi[dst], self.sig[dst] = self.lo[src].copy(), self.hi[src].copy(), self.sig[src].copy()
 
     def ids(self, X):
         X = np.atleast_2d(np.asarray(X, dtype=float))
@@ -245,7 +254,7 @@ def build_scripted(cfg):
     def fake_factory(*args, **kw):
         X = kw.get("X")
         Y = kw.get("Y")
-        holder["model"] = ScriptedModel(X, Y.shape[1], sc["kind"], sc["G"], cfg.get("seed", 0), wander=sc.get("wander", False), iso=sc.get("iso", False))
+        holder["model"] = ScriptedModel(X, Y.shape[1], sc["kind"], sc["G"], cfg.get("seed", 0), wander=sc.get("wander", False), iso=sc.get("iso", False), dup=sc.get("dup", False))
         return holder["model"]
 
     saved = {}
@@ -261,7 +270,7 @@ def build_scripted(cfg):
     m = alg.m
     if "model" not in holder:   # PaVeBa / Auer build an EmpiricalMeanVarModel themselves: replace it
         pts = alg.design_space.points
-        holder["model"] = ScriptedModel(pts, m, sc["kind"], sc["G"], cfg.get("seed", 0), wander=sc.get("wander", False), iso=sc.get("iso", False))
+        holder["model"] = ScriptedModel(pts, m, sc["kind"], sc["G"], cfg.get("seed", 0), wander=sc.get("wander", False), iso=sc.get("iso", False), dup=sc.get("dup", False))
         alg.model = holder["model"]
     model = holder["model"]
     if a in ("VOGP", "EpsilonPAL"):
@@ -745,6 +754,18 @@ def record(cfg):
          "costs": [int(c) for c in costs] if costs else [], "budget": int(cfg["budget"]) if cfg.get("budget") is not None else -1,
          "L": int(getattr(alg, "L", 0)) if cfg["alg"] == "NaiveElimination" else 0, "steps": []}
     notes = {"either_pairs": 0, "input_changed": 0, "acq_errors": 0}
+    pess_calls = []
+    if cfg["alg"] in ("VOGP", "EpsilonPAL") and callable(getattr(alg, "compute_pessimistic_set", None)):
+        inner_cps = alg.compute_pessimistic_set
+
+        def cps(*a, **k):          # observation only: what discarding() was handed as the pessimistic Pareto set
+            r = inner_cps(*a, **k)
+            try:
+                pess_calls.append(sorted(int(i) + 1 for i in r))
+            except Exception:
+                pass
+            return r
+        alg.compute_pessimistic_set = cps
     done_seen = 0
     valid_history = True
     for stepno in range(cfg.get("max_steps", 60)):
@@ -753,6 +774,7 @@ def record(cfg):
             smodel.advance()
         rows_before = model_rows(alg, cfg)
         ncalls = len(proxy.calls)
+        del pess_calls[:]
         exc = 0
         ret = False
         try:
@@ -801,6 +823,19 @@ def record(cfg):
             except ValueError as e:
                 rel, amb = {"a": [], "b": [], "c": []}, {"a": [], "b": [], "c": []}
                 T.setdefault("rel_errors", []).append(repr(e))
+            if pess_calls and pre["S"]:
+                # the pessimistic set must be exactly the designs of S u P that no other one pessimistically dominates; pairs whose
+                # geometric answer is not robust (exact ties) are taken from the code's own pairwise comparison
+                cx = []
+                try:
+                    from vopy.confidence_region import confidence_region_check_dominates as _cd
+                    regs_ = alg.design_space.confidence_regions
+                    for j, i in amb["c"]:
+                        if bool(_cd(alg.order, regs_[j - 1], regs_[i - 1])):
+                            cx.append([j, i])
+                    step["pess"] = {"has": True, "set": pess_calls[-1], "cx": cx}
+                except Exception:
+                    pass
             namb = sum(len(v) for v in amb.values())
             notes["either_pairs"] += namb
             if namb > 8:      # too many undecided pairs for the existential: the set clauses of this step are not judged
@@ -857,7 +892,7 @@ def record(cfg):
 
 # --------------------------------------------------------------------------------------------- validation by TLC
 TRACE_KEYS = ("tid", "alg", "n", "m", "batch", "costs", "budget", "L", "steps", "final")
-STEP_KEYS = ("pre", "post", "ret", "exc", "gate", "rel", "amb", "req", "rows", "acq", "acqchk", "data", "skipsets", "flat", "modeled")
+STEP_KEYS = ("pre", "post", "ret", "exc", "gate", "rel", "amb", "req", "rows", "acq", "acqchk", "data", "skipsets", "flat", "modeled", "pess")
 
 
 def to_ndjson(traces, path):
@@ -870,6 +905,7 @@ def to_ndjson(traces, path):
                 s2 = {k: s[k] for k in STEP_KEYS if k in s}
                 s2.setdefault("skipsets", False)
                 s2.setdefault("modeled", True)
+                s2.setdefault("pess", {"has": False, "set": [], "cx": []})
                 s2["flat"] = {k: s.get("flat", {}).get(k, []) for k in ("P", "sd", "amb")}
                 s2["data"] = {"gained": s["data"]["gained"], "returned": s["data"]["returned"], "synced": bool(s["data"].get("synced", True))}
                 t["steps"].append(s2)
